@@ -61,6 +61,10 @@ def forecasters():
         mode = "opt" if strat == "recursive" else "req"
         add("reduce_" + strat, (lambda s: lambda: make_reduction(_lin(), strategy=s, window_length=2))(strat),
             mode=mode)
+    for strat in ("direct", "multioutput"):
+        # the same reducers with two exogenous columns given in fit and in every update (no update_predict)
+        add("reduce_%s_exog" % strat, (lambda s: lambda: make_reduction(_lin(), strategy=s, window_length=2))(strat), mode="req")
+        L[-1]["exog"] = True
     add("ensemble_mean", lambda: EnsembleForecaster(
         [("a", NaiveForecaster("last")), ("b", PolynomialTrendForecaster(degree=1))]))
     add("ensemble_median", lambda: EnsembleForecaster(
